@@ -76,8 +76,34 @@ pub fn run(ctx: &mut Ctx) {
     // recorded witness of a residual-hash collision that made the component cache return the
     // diagram of CNF|x=T while compiling CNF|x=F (F12): pointwise check on the assignment where
     // the two differ, both node stores (2 308 variables: evaluated along one path, no truth table)
-    for case in ctx.cases("hash_witness", 2, false) {
-        ctx.run_case("hash_witness", case, |ctx, _rng| hash_witness(ctx, case % 2 == 1));
+    for case in ctx.cases("hash_witness", 4, false) {
+        ctx.run_case("hash_witness", case, |ctx, _rng| if case < 2 { hash_witness(ctx, case % 2 == 1) } else { hash_witness3(ctx, case % 2 == 1) });
+    }
+    // fault injection on hash quality (hook H5): the residual hash keeps only its low 0..8 bits,
+    // so different residual formulas share a component-cache key all the time; the compiled
+    // function must not depend on the hash function (F17: the cache used to trust the hash alone)
+    for case in ctx.cases("weak_hash", 500, true) {
+        ctx.run_case("weak_hash", case, |ctx, rng| {
+            struct Reset;
+            impl Drop for Reset {
+                fn drop(&mut self) {
+                    rsdd::verif::set_residual_hash_bits(None);
+                }
+            }
+            let _reset = Reset;
+            let bits = *rng.pick(&[0u32, 0, 1, 2, 3, 5, 8]);
+            rsdd::verif::set_residual_hash_bits(Some(bits));
+            rsdd::verif::take_component_hash_conflicts();
+            // mostly CNFs that need branching (wide clauses, few units), so that the cache is
+            // consulted with many different residual formulas
+            let cl = if rng.chance(1, 4) { gen_cnf(rng, 9) } else { gen_branchy(rng) };
+            let n = clauses_to_cnf(&cl).num_vars();
+            let p = rng.perm(n);
+            ctx.count("compilations_with_truncated_hash", 2);
+            one(ctx, &cl, &p, false);
+            one(ctx, &cl, &p, true);
+            ctx.count("component_cache_hash_conflicts", rsdd::verif::take_component_hash_conflicts());
+        });
     }
     // one builder, several CNFs over the same variables (relatives of each other: shared
     // clauses, so that residual formulas of different compilations look alike), the first one
@@ -168,6 +194,26 @@ fn gen_cnf(rng: &mut Rng, max_vars: usize) -> Clauses {
             cl.push(vec![(v, false), (v + 1, true)]);
         }
         cl.push(vec![(if rng.bool() { 0 } else { n - 1 }, rng.bool())]);
+    }
+    cl
+}
+
+/// 5-10 variables, clauses of width 2-4, hardly any unit: compilation has to branch
+fn gen_branchy(rng: &mut Rng) -> Clauses {
+    let n = rng.range(5, 10);
+    let m = rng.range(n, 2 * n + 2);
+    let mut cl: Clauses = Vec::new();
+    for _ in 0..m {
+        let w = *rng.pick(&[2usize, 3, 3, 3, 4]);
+        let mut vs = rng.perm(n);
+        vs.truncate(w);
+        cl.push(vs.into_iter().map(|v| (v, rng.bool())).collect());
+    }
+    if rng.chance(1, 3) {
+        // the same pattern on the two halves: equal residuals under different decisions
+        let h = n / 2;
+        let extra: Clauses = cl.iter().filter(|c| c.iter().all(|(v, _)| *v < h)).map(|c| c.iter().map(|(v, p)| (v + h, *p)).collect()).collect();
+        cl.extend(extra);
     }
     cl
 }
@@ -311,6 +357,32 @@ fn hash_witness(ctx: &mut Ctx, semantic: bool) {
     if got != expected {
         ctx.violation("topdown.function.witness", "top-down result differs from the CNF on an assignment (recorded residual-hash collision witness)",
             json!({"store": if semantic { "semantic64" } else { "standard" }, "variables": n, "clauses": m, "diagram_value": got, "cnf_value": expected}));
+    }
+}
+
+/// F17: the constructed collision of the repaired 127-bit hash (witness 3: 2 176 clauses over
+/// x0..x4); the whole truth table is compared
+fn hash_witness3(ctx: &mut Ctx, semantic: bool) {
+    let raw = crate::witness::witness3();
+    let cl: Clauses = raw.clone();
+    let cnf = clauses_to_cnf(&cl);
+    let exp = clauses_tt(&cl, 5);
+    let order = VarOrder::linear_order(5);
+    let store = if semantic { "semantic64" } else { "standard" };
+    let got = if semantic {
+        let b = SemanticDecisionNNFBuilder::<{ primes::U64_LARGEST }>::new(order);
+        let r = b.compile_cnf_topdown(&cnf);
+        BddWalker::new(5).tt(r)
+    } else {
+        let b = StandardDecisionNNFBuilder::new(order);
+        let r = b.compile_cnf_topdown(&cnf);
+        BddWalker::new(5).tt(r)
+    };
+    ctx.count("witness_compilations", 1);
+    ctx.case_eval(Some(crate::rng::mix(0xF17 ^ semantic as u64)));
+    if got != exp {
+        ctx.violation("topdown.function.witness", "top-down result differs from the CNF (recorded witness of a constructed collision of the 127-bit residual hash)",
+            json!({"store": store, "witness": 3, "clauses": raw.len(), "observed": got.hex(), "expected": exp.hex()}));
     }
 }
 
